@@ -374,6 +374,38 @@ func (m *observer) OnDeliver(s *apphist.Sim, bz []byte, pre, post string, o appd
 	}
 }
 
+// compact renders a trace for the evidence samples (addresses shortened, precompile sync-ins folded).
+func compact(events []string) string {
+	var out []string
+	pc := 0
+	for _, e := range events {
+		f := strings.Fields(e)
+		a := f[1]
+		if f[0] == "syncin" && strings.HasPrefix(a, "00000000000000000000000000000000000000") && a[38:] != "00" && a[38:39] == "0" {
+			pc++
+			continue
+		}
+		if pc > 0 {
+			out = append(out, fmt.Sprintf("syncin <%d precompiles>", pc))
+			pc = 0
+		}
+		if len(a) > 8 {
+			a = a[:4] + ".." + a[len(a)-4:]
+		}
+		switch f[0] {
+		case "snapshot", "revert":
+			out = append(out, f[0]+" "+f[2])
+		case "syncin":
+			out = append(out, "syncin "+a+" tag "+f[2])
+		case "unsync":
+			out = append(out, "unsync "+a)
+		case "syncout":
+			out = append(out, "syncout "+a)
+		}
+	}
+	return strings.Join(out, "; ")
+}
+
 // ---------------------------------------------------------------------------- generator
 
 type custom struct {
@@ -714,7 +746,7 @@ func Run(seed uint64, tier, work, driver string, replay []string) *vcommon.Resul
 		}
 		for _, t := range m.txs {
 			if len(res.Samples) < 6 && strings.Contains(shapeOf(t.events), "Ru") {
-				res.Samples = append(res.Samples, fmt.Sprintf("tx %s ok=%v: %s", t.hash[:12], t.ok, strings.Join(t.events, "; ")))
+				res.Samples = append(res.Samples, fmt.Sprintf("tx %s ok=%v: %s", t.hash[:12], t.ok, compact(t.events)))
 			}
 		}
 		fresh := 0
